@@ -27,7 +27,7 @@ def build_crate(cname):
         items.append(it)
     group = dict(group, items=items)
     group.pop("expand", None)
-    out = os.path.join(vlib.BUILD, "kani_" + cname)
+    out = os.path.join(vlib.BUILD, vlib.SUB, "kani_" + cname)
     os.makedirs(os.path.join(out, "src"), exist_ok=True)
     ex = vlib.extract(group, out)
     parts = [open(os.path.join(ROOT, "prelude", "q_f64.rs")).read()]
@@ -56,7 +56,7 @@ def parse_playback(text):
 
 
 def run_harness(out, name, timeout=900, flags=()):
-    env = dict(os.environ, CARGO_NET_OFFLINE="true", CARGO_TARGET_DIR=os.path.join(out, "target"))
+    env = dict(os.environ, CARGO_NET_OFFLINE="true", CARGO_TARGET_DIR=os.path.join(vlib.BUILD, "kani_target_" + os.path.basename(out)))
     cmd = ["cargo", "kani", "--harness", "harnesses::" + name, "--exact", "-Z", "concrete-playback", "--concrete-playback=print"] + list(flags)
     t0 = time.time()
     try:
@@ -95,7 +95,7 @@ def decode_inputs(h, playback):
 def replay_real(cname, h, inp, timeout=3600):
     """evaluate the same oracle predicate against the REAL altrios-core (path dependency on the current tree)"""
     cdir = os.path.join(ROOT, "kani", cname)
-    out = os.path.join(vlib.BUILD, "replay_" + cname)
+    out = os.path.join(vlib.BUILD, vlib.SUB, "replay_" + cname)
     os.makedirs(os.path.join(out, "src"), exist_ok=True)
     core = os.path.join(vlib.REPO, "rust", "altrios-core")
     open(os.path.join(out, "Cargo.toml"), "w").write(
